@@ -2,6 +2,7 @@ import RockitModel.Proofs.Bridge
 import RockitModel.Model.Intg
 import RockitModel.Spec.Shooting
 import RockitModel.Props.C01
+import RockitModel.Props.C02
 import Mathlib.Algebra.Order.Field.Basic
 import Mathlib.Tactic.Ring
 import Mathlib.Tactic.FieldSimp
@@ -342,5 +343,51 @@ theorem time_rescaling (f : E → ℝ → E) (y : ℝ → E) (t0 DT : ℝ) (hDT 
   exact this
 
 end rescaling
+
+/-! ### collocation: the exact solution of a quadrature problem satisfies the collocation equations
+
+For `dx/dt = g((t - t_k)/h)` with `g` a polynomial with at most `d` coefficients, the exact solution on the step is a polynomial with
+at most `d+1` coefficients; put into the helper states it makes every defect row vanish and the continuity row carry the EXACT end
+value `x0 + h ∫₀¹ g` — for every degree `d` and every pairwise distinct collocation points (Radau, Legendre, or any other). So the
+scheme has no discretisation error at all on this class (consistency of order `d`; the super-convergence orders `2d-1`/`2d` of
+the property are measured by the check, not proved). -/
+section collocation
+variable {K : Type} [Field K] [CharZero K]
+
+theorem derivAux_smul (n : Nat) (c : K) (p : List K) : LP.derivAux n (LP.smul c p) = LP.smul c (LP.derivAux n p) := by
+  induction p generalizing n with
+  | nil => rfl
+  | cons a p ih =>
+    simp only [LP.smul, List.map_cons, LP.derivAux] at *
+    rw [ih]
+    congr 1
+    ring
+
+/-- the exact solution of `dx/ds = h·g(s)`, `x(0) = x0`, in normalised time -/
+def quadSolution (g : List K) (x0 h : K) : List K := x0 :: LP.smul h (LP.antiAux 0 g)
+
+theorem colloc_exact_on_quadrature (tau : List K) (hn : ((0:K) :: tau).Nodup) (g : List K) (hg : g.length ≤ tau.length)
+    (x0 h : K) (hh : h ≠ 0) (j : Nat) (hj : j < tau.length) :
+    collocSlope (collocCoeff tau).C (((0:K) :: tau).map (LP.eval (quadSolution g x0 h))) j h = LP.eval g tau[j] ∧
+    collocEnd (collocCoeff tau).D (((0:K) :: tau).map (LP.eval (quadSolution g x0 h))) = x0 + h * LP.integ01 g := by
+  have hlen : (quadSolution g x0 h).length ≤ tau.length + 1 := by
+    simp [quadSolution, LP.smul, LP.length_antiAux, hg]
+  obtain ⟨h1, h2⟩ := C02.polynomial_trajectory_exact tau hn (quadSolution g x0 h) hlen j hj h
+  constructor
+  · rw [h1]
+    have : LP.deriv (quadSolution g x0 h) = LP.smul h g := by
+      simp only [quadSolution, LP.deriv, derivAux_smul]
+      have := LP.derivAux_antiAux 0 g
+      simp only [zero_add] at this
+      rw [this]
+    rw [this, LP.eval_smul]
+    field_simp
+  · rw [h2]
+    simp [quadSolution, LP.eval_smul, LP.eval_antiAux_one, LP.integ01]
+
+/-- non-vacuity: Radau points of degree 2, `g(s) = 1 + 2s` -/
+example : ((0:ℚ) :: [1/3, 1]).Nodup ∧ ([1, 2] : List ℚ).length ≤ ([1/3, 1] : List ℚ).length := ⟨by norm_num, by simp⟩
+
+end collocation
 
 end Rockit.C03
